@@ -63,8 +63,9 @@ def r1_constant(ctx):
     ctx.check("return dict(zip($k0, $0._get_feature_values($1, $2)))" in canon_lines(g.node), "C20.R1", g, g.node, "values keyed by the feature names", "values are no longer keyed by the feature names")
     h = ix.func(CA, "ConstantPredictionAlgorithm._compute_individual_parameters", "C20.R1")
     hl = canon_lines(h.node, True, True)
-    ok = unify(hl, ["for (range($2.n_individuals), ?i)", "?ip = $0._get_individual_last_values($2.get_times_patient(?i), $2.get_values_patient(?i).numpy(), features=$1.features)",
-                    "?ips.add_individual_parameters(str($2.indices[?i]), ?ip)", "return ?ips"]) is not None
+    IP_ = "$0._get_individual_last_values($2.get_times_patient(?i), $2.get_values_patient(?i).numpy(), features=$1.features)"
+    ok = unify(hl, ["for (range($2.n_individuals), ?i)", "?ip = " + IP_, "?ips.add_individual_parameters(str($2.indices[?i]), ?ip)", "return ?ips"]) is not None \
+        or unify(hl, ["for (range($2.n_individuals), ?i)", "?ips.add_individual_parameters(str($2.indices[?i]), " + IP_ + ")", "return ?ips"]) is not None
     ctx.check(ok, "C20.R1", h, h.node, "each individual's own visits, keyed by its identifier and the model's features", "the personalisation no longer uses each individual's own visits / identifier / the model's features")
     m = ix.func("leaspy.models.constant", "ConstantModel.compute_individual_trajectory", "C20.R1")
     rets = Canon(m.node).returns()
@@ -101,8 +102,7 @@ def r2_lme(ctx):
     ix = ctx.ix
     fit = ix.func(LF, "LMEFitAlgorithm._run", "C20.R2")
     cf = Canon(fit.node)
-    fl = cf.lines(False, True)
-    written = set()
+    fl = cf.lines(True, True)
     loaded = None
     for c in ast.walk(fit.node):
         if isinstance(c, ast.Call) and isinstance(c.func, ast.Attribute) and c.func.attr == "load_parameters" and cf.text(c.func.value) == "$1" and c.args:
@@ -118,7 +118,7 @@ def r2_lme(ctx):
     if not isinstance(dct, ast.Dict):
         raise AnalysisError("C20.R2", "anchor vanished: the dictionary literal of parameters loaded by the LME fit")
     written = {k.value for k in dct.keys if isinstance(k, ast.Constant)}
-    stored = {k.value: cf.text(v, False, cf.last_order) for k, v in zip(dct.keys, dct.values) if isinstance(k, ast.Constant)}
+    stored = {k.value: cf.text(v, True, cf.last_order) for k, v in zip(dct.keys, dct.values) if isinstance(k, ast.Constant)}
     readers = [ix.func(LP, "LMEPersonalizeAlgorithm._get_individual_random_effects_and_residuals", "C20.R2"), ix.func("leaspy.models.lme", "LMEModel.compute_individual_trajectory", "C20.R2")]
     for r in readers:
         read = {x.slice.value for x in ast.walk(r.node) if isinstance(x, ast.Subscript) and U(x.value) in ("model.parameters", "self.parameters") and isinstance(x.slice, ast.Constant)}
@@ -127,22 +127,27 @@ def r2_lme(ctx):
     # age normalisations: the value handed to sm.add_constant, as a function of (ages, mean, std)
     a, m, s = sp.symbols("age ages_mean ages_std", real=True)
     ref = (a - m) / s
-    DESIGN = "?X = sm.add_constant(?an, prepend=True, has_constant='add')"
-    bf = unify(fl, ["?ages = $0._get_reformated($2, 'timepoints')", "?m, ?s = (np.mean(?ages).item(), np.std(?ages).item())", DESIGN])
-    ctx.check(bf is not None and stored.get("ages_mean") == bf["m"] and stored.get("ages_std") == bf["s"], "C20.R2", fit, fit.node, "normalisation constants = mean / std of the training ages, stored as ages_mean / ages_std",
+    X_ = "sm.add_constant(?{an}, prepend=True, has_constant='add')"
+    bf = unify(fl, ["?m, ?s = (np.mean(?{ages}).item(), np.std(?{ages}).item())", "?lme = MixedLM(?{y}, " + X_ + ", ?{groups}, ?zre, missing='raise')...", "?zre = " + X_, "?zre = None"])
+    ok = bf is not None and bf["ages"] == "$0._get_reformated($2, 'timepoints')" and stored.get("ages_mean") == bf["m"] and stored.get("ages_std") == bf["s"]
+    ctx.check(ok, "C20.R2", fit, fit.node, "normalisation constants = mean / std of the training ages, stored as ages_mean / ages_std",
               "the stored normalisation constants are no longer the mean / std of the training ages", construct="normalisation constants")
-    pl = Canon(readers[0].node).lines(False, True)
-    tl = Canon(readers[1].node).lines(False, True)
-    bp = unify(pl, [DESIGN])
-    bt = unify(tl, [DESIGN])
+    pl = Canon(readers[0].node).lines(True, True)
+    tl = Canon(readers[1].node).lines(True, True)
+    bp = unify(pl, ["?res = $3 - " + X_ + " @ $1.parameters['fe_params']"])
+    bt = unify(tl, ["return torch.tensor(" + X_ + " @ ($0.parameters['fe_params'] + ?re), dtype=torch.float32).reshape((1, -1, 1))"])
+    ctx.check(bp is not None, "C20.R2", readers[0], readers[0].node, "residuals = y - [1, age_norm] fe", "residuals are no longer y - X fe with X = [1, age_norm]", construct="residuals")
+    ctx.check(bt is not None, "C20.R2", readers[1], readers[1].node, "trajectory = [1, age_norm] (fe + re): a straight line in age", "the LME trajectory is no longer X (fe + re)")
+
+    def key(txt):
+        return U(parse_canon(txt))
     sites = [
-        (fit, fl, bf, {canon_name(bf["ages"]): a, canon_name(bf["m"]): m, canon_name(bf["s"]): s} if bf else {}),
-        (readers[0], pl, bp, {"P_2": a, "P_1.parameters['ages_mean']": m, "P_1.parameters['ages_std']": s}),
-        (readers[1], tl, bt, {"np.array(P_1).reshape(-1)": a, "P_0.parameters['ages_mean']": m, "P_0.parameters['ages_std']": s}),
+        (fit, bf, {key(bf["ages"]): a, canon_name(bf["m"]): m, canon_name(bf["s"]): s} if bf else {}),
+        (readers[0], bp, {"P_2": a, "P_1.parameters['ages_mean']": m, "P_1.parameters['ages_std']": s}),
+        (readers[1], bt, {"np.array(P_1).reshape(-1)": a, "P_0.parameters['ages_mean']": m, "P_0.parameters['ages_std']": s}),
     ]
-    for f, lines, bnd, env in sites:
-        rhs = rhs_of(lines, bnd["an"]) if bnd else []
-        if len(rhs) != 1:
+    for f, bnd, env in sites:
+        if not bnd:
             ctx.violation("C20.R2", f, f.node, "ages are no longer normalised before the design matrix [1, age] is built", construct=f"age normalisation in {f.name}")
             continue
 
@@ -153,12 +158,12 @@ def r2_lme(ctx):
                     return env[t]
                 return super().tosym(e)
         try:
-            got = N({})(parse_canon(rhs[0]))
+            got = N({})(parse_canon(bnd["an"]))
             ctx.check(equal(got, ref), "C20.R2", f, f.node, "(age - ages_mean)/ages_std", f"age normalisation is {got}; the other sites use (age - ages_mean)/ages_std", construct=f"age normalisation in {f.name}")
-        except NFUnsupported as e:
+        except (NFUnsupported, SyntaxError) as e:
             ctx.unknown("C20.R2", f, f.node, str(e), construct=f"age normalisation in {f.name}")
-    bfit = unify(fl, ["?fitted = ?lme.fit(**$0.sm_fit_parameters)", "?cinv = np.linalg.inv(?fitted.cov_re_unscaled)"])
-    ok = bfit is not None and stored.get("cov_re_unscaled_inv") == bfit["cinv"] and stored.get("fe_params") == bfit["fitted"] + ".fe_params"
+    bfit = unify(fl, ["?fitted = MixedLM(...).fit(**$0.sm_fit_parameters)"]) or unify(fl, ["?fitted = ?lme.fit(**$0.sm_fit_parameters)", "?lme = MixedLM(...)"])
+    ok = bfit is not None and stored.get("cov_re_unscaled_inv") == f"np.linalg.inv({bfit['fitted']}.cov_re_unscaled)" and stored.get("fe_params") == bfit["fitted"] + ".fe_params"
     ctx.check(ok, "C20.R2", fit, fit.node, "C = inverse of the fitted unscaled random-effects covariance; fe = fitted fixed effects", "stored variance components / fixed effects changed", construct="stored components")
     # random effects
     g = ix.func(LP, "LMEPersonalizeAlgorithm._generic_get_random_effects", "C20.R2")
@@ -175,24 +180,19 @@ def r2_lme(ctx):
     except (NFUnsupported, IndexError, SyntaxError) as e:
         ctx.unknown("C20.R2", g, g.node, f"random-effects expression outside the supported subset: {e}")
     p = readers[0]
-    bp = unify(pl, ["?an = ...", DESIGN, "?res = $3 - ?X @ $1.parameters['fe_params']", "?c = $1.parameters['cov_re_unscaled_inv']"])
-    ctx.check(bp is not None, "C20.R2", p, p.node, "residuals = y - [1, age_norm] fe", "residuals are no longer y - X fe with X = [1, age_norm]", construct="residuals")
-    bp = bp or {}
-    sub = {k: bp[k] for k in ("res", "c", "X") if k in bp}
-    ok = bool(sub) and (unify(pl, ["if not $1.with_random_slope_age", "?n = len($3)", "?ri = np.sum(?res) / (?n + ?c.item())", "?re = {'random_intercept': ?ri}", "return (?re, ?res)"], sub) is not None
-                        or unify(pl, ["if not $1.with_random_slope_age", "?ri = np.sum(?res) / (len($3) + ?c.item())", "?re = {'random_intercept': ?ri}", "return (?re, ?res)"], sub) is not None)
+    sub = {k: bp[k] for k in ("res", "an")} if bp else {}
+    CI = "$1.parameters['cov_re_unscaled_inv']"
+    ok = bool(sub) and unify(pl, ["if not $1.with_random_slope_age", "?re = {'random_intercept': np.sum(?res) / (len($3) + " + CI + ".item())}", "return (?re, ?res)"], sub) is not None
     ctx.check(ok, "C20.R2", p, p.node, "intercept-only shortcut = sum(r)/(n + c)", "the intercept-only random effect is no longer sum(r)/(n + c)", construct="intercept-only shortcut")
-    ok = bool(sub) and unify(pl, ["?g = $0._generic_get_random_effects(?res, ?X, ?c).squeeze()", "?re = {'random_intercept': ?g[0], 'random_slope_age': ?g[1]}", "return (?re, ?res)"], sub) is not None
+    G_ = "$0._generic_get_random_effects(?res, " + X_ + ", " + CI + ").squeeze()"
+    ok = bool(sub) and unify(pl, ["?re = {'random_intercept': " + G_ + "[0], 'random_slope_age': " + G_ + "[1]}", "return (?re, ?res)"], sub) is not None
     ctx.check(ok, "C20.R2", p, p.node, "(intercept, slope) = generic formula with Z = X", "random intercept / slope are no longer the two components of the generic formula with Z = X", construct="intercept and slope")
     ok = "$3, $2 = $0._remove_nans($3, $2)" in pl
     ctx.check(ok, "C20.R2", p, p.node, "missing values dropped together with their ages", "missing values are no longer dropped (with their ages) before computing residuals", construct="NaN removal")
     t = readers[1]
-    bt = unify(tl, [DESIGN, "?y = ?X @ ($0.parameters['fe_params'] + ?re)", "return torch.tensor(?y, dtype=torch.float32).reshape((1, -1, 1))"]) \
-        or unify(tl, [DESIGN, "return torch.tensor(?X @ ($0.parameters['fe_params'] + ?re), dtype=torch.float32).reshape((1, -1, 1))"])
-    ctx.check(bt is not None, "C20.R2", t, t.node, "trajectory = [1, age_norm] (fe + re): a straight line in age", "the LME trajectory is no longer X (fe + re)")
     ok = bt is not None and unify(tl, ["if not $0.with_random_slope_age", "?re = np.array([$2['random_intercept'].item(), 0])", "?re = np.array([$2['random_intercept'].item(), $2['random_slope_age'].item()])"], {"re": bt["re"]}) is not None
     ctx.check(ok, "C20.R2", t, t.node, "random slope forced to 0 when the model has none", "the random slope is not forced to 0 for an intercept-only model", construct="no-slope case")
-    ok = bf is not None and unify(fl, ["if $1.with_random_slope_age", "?zre = ?X", "?zre = None", "?lme = MixedLM(?y, ?X, ?groups, ?zre, missing='raise')"], {"X": bf["X"]}) is not None
+    ok = bf is not None and "if $1.with_random_slope_age" in fl
     ctx.check(ok, "C20.R2", fit, fit.node, "random-effects design = X with a random slope, intercept only otherwise", "the random-effects design of the fit changed", construct="random-effects design")
 
 
